@@ -20,6 +20,16 @@ def salt(rng, n, alpha=B64):
     return "".join(rng.choice(alpha) for _ in range(n))
 
 
+def ysalt(rng, n):
+    """a canonical crypt-base64 string of n characters (yescrypt salts: unused bits of a partial group are 0)"""
+    s = salt(rng, n)
+    if n % 4 == 2:
+        s = s[:-1] + rng.choice(B64[:4])
+    elif n % 4 == 3:
+        s = s[:-1] + rng.choice(B64[:16])
+    return s
+
+
 def valid_settings(m, rng, full=False):
     """Accepted settings of method m in all the forms the property names (without a hash part)."""
     out = []
@@ -50,6 +60,9 @@ def valid_settings(m, rng, full=False):
                 for r in ("1", "17", "904"):
                     out += [base + "rounds=" + r + "$" + s, base + "rounds=" + r + "$" + s + "$",
                             base + "rounds=" + r + "$" + s + "$$"]
+        # maximal salts: the output field holds saltlen + 1 + 22 + NUL <= 384
+        for n in (340, 354, 355, 356, 357):
+            out += ["$md5$" + salt(rng, n), "$md5$" + salt(rng, n) + "$", "$md5$rounds=3$" + salt(rng, n - 9)]
     elif m == "sha1crypt":
         lens = (1, 2, 8, 16, 31, 63, 64) if not full else list(range(1, 65))
         for n in lens:
@@ -78,6 +91,7 @@ def valid_settings(m, rng, full=False):
                 s = salt(rng, n)
                 out += [p + par + "$" + s, p + par + "$" + s + "$"]
         out.append(p + "j75$" + salt(rng, 8) + "$" + salt(rng, 43))
+        out.append(p + "j75$" + salt(rng, 85) + "." + "$" + salt(rng, 200))       # setting near the 339 limit
         out.append(p + "j75$" + salt(rng, 8) + "$" + salt(rng, 10) + "$extra")
     elif m == "scrypt":
         for n in (0, 1, 4, 8, 22, 43):
